@@ -645,6 +645,10 @@ def check_c11(tier, seed):
         for cls, sd, text in c11.judge(r, ff.get(c["entry"]), sc.census["operations"], ffsteps.get((c["entry"], c["consumer"], c["cap"]))):
             sig = "%s:%s:%s" % (cls, sd, c["failure"]["id"])
             by_sig.setdefault(sig, []).append((r, text))
+        if r.get("probe_milestone_time_mismatch"):
+            stats["probes"]["milestone_time_mismatch"] = stats["probes"].get("milestone_time_mismatch", 0) + r["probe_milestone_time_mismatch"]
+        if r["cell"]["consumer"] == "milestones":
+            stats["probes"]["milestones_checked_against_clock"] = stats["probes"].get("milestones_checked_against_clock", 0) + len(r.get("milestones") or [])
     nviol = 0
     rdir = vlib.out_dir("replays")
     for sig, items in sorted(by_sig.items()):
